@@ -21,7 +21,7 @@ BOOL = {"flip_enum", "flip_enum_parallel", "flip_reinforce", "flip_mvd"}
 VEC = {"mvn_diag_reparam", "mvn_reparam", "mvn_reinforce", "normal_reparam_bs", "normal_reparam_bl", "normal_reinforce_bs"}
 # batched scalar-family sites: *_bs = scalar location, vector scale; *_bl = vector location, scalar scale
 BOOLVEC = {"flip_enum_b", "flip_mvd_b"}  # one site, a vector of two probabilities: two Bernoulli lanes (lane-wise estimators)
-COV = [[1.0, 0.3], [0.3, 0.7]]
+COV = [[1.0, 0.6], [0.6, 0.7]]  # clearly non-diagonal: L L^T and L^T L differ by 0.25 in the off-diagonal entry
 
 
 def ev(e, th, vals, xp):
@@ -74,8 +74,8 @@ def pos_of(x, xp):
 
 # ------------------------------------------------------------------------------------------ reference expectation
 QUAD = {
-    "hi": (np.polynomial.hermite.hermgauss(40), np.polynomial.hermite.hermgauss(26), np.polynomial.legendre.leggauss(40)),
-    "lo": (np.polynomial.hermite.hermgauss(24), np.polynomial.hermite.hermgauss(14), np.polynomial.legendre.leggauss(24)),
+    "hi": (np.polynomial.hermite.hermgauss(40), np.polynomial.hermite.hermgauss(56), np.polynomial.legendre.leggauss(40)),
+    "lo": (np.polynomial.hermite.hermgauss(24), np.polynomial.hermite.hermgauss(36), np.polynomial.legendre.leggauss(24)),
 }
 
 
@@ -404,7 +404,7 @@ def cases():
         nth = draw(st.integers(1, 2))
         n_sites = draw(st.integers(1, 3))
         flavour = draw(st.sampled_from(["enum", "enum", "mixed", "mixed", "reparam", "sf"]))
-        pool = {"enum": sorted(ENUM), "reparam": ["normal_reparam", "uniform_reparam", "normal_reparam", "normal_reparam_bs", "normal_reparam_bl"], "sf": sorted(DISC_SF | BOOLVEC | CONT_SF - {"mvn_reinforce"}),
+        pool = {"enum": sorted(ENUM), "reparam": ["normal_reparam", "uniform_reparam", "normal_reparam", "normal_reparam_bs", "normal_reparam_bl", "mvn_reparam", "mvn_reparam", "mvn_diag_reparam"], "sf": sorted(DISC_SF | BOOLVEC | CONT_SF - {"mvn_reinforce"}),
                 "mixed": sorted(ENUM | DISC_SF | BOOLVEC | CONT_REPARAM | CONT_SF | INF)}[flavour]
         sites, n_cont = [], 0
 
